@@ -18,7 +18,10 @@ CONSTANTS
   MaxLegacyR,  \* same for the remote listing
   LoIds,       \* identifiers that may carry a local-only object in the secondary (kind acl only)
   Unhashed,    \* TRUE: stored config entries may lack a hash (h = 0)
-  Perms        \* TRUE: every arrival order of both listings; FALSE: one arbitrary order
+  Perms,       \* TRUE: every arrival order of both listings; FALSE: one arbitrary order
+  RIdxs,       \* indexes the primary answers with (a value below lastRemoteIndex = the primary's index went backwards)
+  Faults,      \* TRUE: the fetch-updated step of an ACL round may be hit by a stale / omitting batch read
+  OldCs        \* contents of the older version a lagging server may still hold
 
 VARIABLE st
 
@@ -38,9 +41,16 @@ Orders(S) == IF Perms THEN SetToSeqs(S) ELSE {SetToSeq(S)}
 PairSlots(kind, last) ==
   {pr \in LSlot(kind) \X RSlot(kind) : (pr[1].p /\ pr[2].p /\ pr[2].mi <= last) => pr[1].c = pr[2].c}
 
+FaultsFor(kind, rem) ==
+  {NoFault} \cup
+  (IF Faults /\ kind = "acl"
+   THEN {[t |-> "stale", id |-> o.id, oc |-> oc, mod |-> TRUE] : o \in rem, oc \in OldCs}
+        \cup {[t |-> "omit", id |-> o.id, oc |-> oc, mod |-> m] : o \in rem, oc \in OldCs, m \in BOOLEAN}
+   ELSE {})
+
 Init ==
-  \E kind \in Kinds, last \in Lasts :
-  \E f \in [Ids -> PairSlots(kind, last)],
+  \E kind \in Kinds, last \in Lasts, ridx \in RIdxs :
+  \E f \in [Ids -> PairSlots(kind, EffLast(last, ridx))],
      ll \in Upto(LegacyObjs, IF kind = "acl" THEN MaxLegacyL ELSE 0),
      lr \in Upto(LegacyObjs, IF kind = "acl" THEN MaxLegacyR ELSE 0),
      los \in SUBSET (IF kind = "acl" THEN LoIds ELSE {}) :
@@ -49,8 +59,9 @@ Init ==
         lo   == {Obj(i, 1, 1, 1, TRUE) : i \in los}
     IN /\ UniqueKeys(kind, repl) /\ UniqueKeys(kind, rem)            \* names are unique within a datacenter
        /\ \A i \in los : i \notin {o.id : o \in repl \cup rem}      \* identifiers of local-only objects are fresh
-       /\ \E inL \in Orders(repl \cup ll), inR \in Orders(rem \cup lr) :
-            st = InitState(kind, repl \cup lo, inL, inR, last)
+       /\ \A o \in rem : o.mi <= ridx                                  \* the primary's index covers what it lists
+       /\ \E inL \in Orders(repl \cup ll), inR \in Orders(rem \cup lr), fault \in FaultsFor(kind, rem) :
+            st = RoundInit(kind, repl \cup lo, inL, inR, last, ridx, fault)
 
 Next == st.pc # "done" /\ st' = Step(st)
 Terminated == st.pc = "done" /\ UNCHANGED st
@@ -58,7 +69,8 @@ Spec == Init /\ [][Next \/ Terminated]_st
 
 (* ---- checked ---- *)
 InvEnv == st.pc = "sort" => Env(st)                 \* every explored input satisfies the environment assumption
-PropInputsStable == [][st'.inL = st.inL /\ st'.inR = st.inR /\ st'.sec = st.sec /\ st'.last = st.last /\ st'.kind = st.kind]_st
+PropInputsStable == [][st'.inL = st.inL /\ st'.inR = st.inR /\ st'.sec = st.sec /\ st'.last = st.last /\ st'.kind = st.kind
+                        /\ st'.glast = st.glast /\ st'.ridx = st.ridx /\ st'.fault = st.fault]_st
 InvCursor == st.li \in 1..(Len(st.inL) + 1) /\ st.ri \in 1..(Len(st.inR) + 1)
 InvSorted ==
   st.pc \notin {"sort"} =>
@@ -75,7 +87,7 @@ InvRunOK == st.pc = "sort" => RoundOK(Run(st))      \* the recursive form used b
 PropTerminates == [][Measure(st') < Measure(st) /\ Measure(st') >= 0]_st
 
 (* ---- generation ---- *)
-Case(s) == [kind |-> s.kind, last |-> s.last, sec |-> SetToSeq(s.sec), inL |-> s.inL, inR |-> s.inR]
+Case(s) == [kind |-> s.kind, last |-> s.glast, ridx |-> s.ridx, fault |-> s.fault, sec |-> SetToSeq(s.sec), inL |-> s.inL, inR |-> s.inR]
 Emit == IF st.pc = "sort" THEN PrintT(<<"TRACE", ToJson(Case(st))>>) ELSE TRUE
 EmitProp == [][Emit]_st
 OnlyFirstStep == st.pc = "sort"
